@@ -107,8 +107,8 @@ func genC12(t *rapid.T) c12Case {
 		call := genAnyCall(t, api, o, col)
 		if api == "json" || api == "sjson" {
 			// documents on which the JSON options make a visible difference
-			call.Doc = BS(rapid.SampledFrom([]string{`{"b":[1,2,3],"a":{"y":1,"x":[true,null]}}`, `{"z":1,"a":2}`, `[{"k":"v","a":1},[1,2]]`}).Draw(t, "jdoc"))
-			call.Form = rapid.SampledFrom([]string{"string", "bytes", "value"}).Draw(t, "jform")
+			call.Doc = BS(rapid.SampledFrom([]string{`{"b":[1,2,3],"a":{"y":1,"x":[true,null]}}`, `{"z":1,"a":2}`, `{"z":2,"a":1}`, `{"a":7,"z":9}`, `[{"k":"v","a":1},[1,2]]`}).Draw(t, "jdoc"))
+			call.Form = rapid.SampledFrom([]string{"string", "bytes", "value", "bytes_reused", "bytes_reused"}).Draw(t, "jform")
 		}
 		if (api == "snap" || api == "ssnap") && hasTrailingCR(call.snapText()) {
 			call = Call{API: api, Vals: []Val{strVal("plain")}}
